@@ -37,6 +37,15 @@ func (f *frame) run(entry *bstate, args []TV) {
 			tv := f.havocValue(entry, f.id+"fv."+fv.Name(), fv.Type())
 			f.setVal(fv, tv)
 			f.params[fv.Name()] = tv
+			if pt, ok := fv.Type().Underlying().(*types.Pointer); ok {
+				// the contract name denotes the captured variable's value at entry
+				f.vc.assert("(> " + tv.T + " 0)")
+				lv := f.lvOfRef(tv.T, pt.Elem())
+				val := f.load(entry, lv)
+				val.T = f.vc.define(f.id+"fvval."+fv.Name(), val.S, val.T)
+				f.loadFacts(entry, val)
+				f.params[fv.Name()] = val
+			}
 		}
 	}
 	for _, b := range order {
